@@ -86,13 +86,35 @@ func (p *Peer) Mine(f netsim.Frame) bool {
 func (p *Peer) Next(d time.Duration) (netsim.Frame, bool) {
 	f, n, ok := p.Tap.Scan(p.Cur, d, p.Mine)
 	p.Cur = n
+	if ok {
+		p.noteTS(f.Pkt)
+	}
 	return f, ok
+}
+
+// noteTS keeps the timestamp the peer echoes the way RFC 7323 4.3 has it: TS.Recent
+// takes the TSval of a segment that does not start beyond what has been acknowledged
+// (Last.ACK.sent, kept in RcvNxt by the scripts) and is not older than the value held.
+// (A peer that echoes the SYN's value for ever makes the stack measure ever longer
+// round trips and inflates its retransmission timeout.)
+func (p *Peer) noteTS(k *codec.Packet) {
+	if !p.UseTS || k.L4Kind != "tcp" || k.Flags&codec.SYN != 0 {
+		return
+	}
+	if d, ok := k.Opt(8); ok && len(d) == 8 && int32(k.Seq-p.RcvNxt) <= 0 {
+		if v := uint32(d[0])<<24 | uint32(d[1])<<16 | uint32(d[2])<<8 | uint32(d[3]); int32(v-p.TSEcr) >= 0 {
+			p.TSEcr = v
+		}
+	}
 }
 
 // NextWhere returns the next frame of this connection satisfying pred.
 func (p *Peer) NextWhere(d time.Duration, pred func(*codec.Packet) bool) (netsim.Frame, bool) {
 	f, n, ok := p.Tap.Scan(p.Cur, d, func(f netsim.Frame) bool { return p.Mine(f) && pred(f.Pkt) })
 	p.Cur = n
+	if ok {
+		p.noteTS(f.Pkt)
+	}
 	return f, ok
 }
 
